@@ -93,12 +93,27 @@ class Contract:
                         if not E.feasible(s2):
                             nxt.append((s1, None))
                             continue
+                    exc_posts = [e for x, _n, e in self.exc_ensures if x == exc]
+                    # the callee may have written its frame before raising
+                    for p in self.modifies:
+                        E.havoc_path(s2, p, LoopSpec(), frame)
+                    if not self.pure:
+                        E.havoc_ghost(s2)
+                    for e in exc_posts:
+                        s2.assume(E.spec_formula(s2, e, frame, old_state=pre))
                     out.append((s2, Raised(ExcVal(exc, ()))))
                     nxt.append((s1, None))
                 else:
                     w = E.spec_formula(s1, when, frame, old_state=pre)
                     for s2, b in E.split(s1, w):
                         if b:
+                            for p in self.modifies:
+                                E.havoc_path(s2, p, LoopSpec(), frame)
+                            if not self.pure:
+                                E.havoc_ghost(s2)
+                            for x, _n, e in self.exc_ensures:
+                                if x == exc:
+                                    s2.assume(E.spec_formula(s2, e, frame, old_state=pre))
                             out.append((s2, Raised(ExcVal(exc, ()))))
                         else:
                             nxt.append((s2, None))
